@@ -705,7 +705,7 @@ func c13verify(p *Program, r *Report, rule string) {
 		`(Response.StatusCode == 101)=true`,
 		`headerContainsTokenIgnoreCase(Response.Header,"Connection","Upgrade")=true`,
 		`headerContainsTokenIgnoreCase(Response.Header,"Upgrade","WebSocket")=true`,
-		`((http.Header).Get(Response.Header,"Sec-WebSocket-Accept") != secWebSocketAccept(param:secWebSocketKey))=false`,
+		`((http.Header).Get(Response.Header,"Sec-WebSocket-Accept") == secWebSocketAccept(param:secWebSocketKey))=true`,
 	}
 	const proto = `(http.Header).Get(Response.Header,"Sec-WebSocket-Protocol")`
 	allowed := [][]string{
